@@ -19,7 +19,7 @@ structure NodeOK (n : Node) : Prop where
   bIn : ∀ h ∈ n.inb, h.id < n.nextInId
   bOut : ∀ h ∈ n.outb, h.id < n.nextOutId
 
-theorem NodeOK.init (v : Nat) : NodeOK (Node.init v) :=
+theorem NodeOK.init (v : Nat) (fd : Bool) (f0 : Nat) : NodeOK (Node.init v fd f0) :=
   ⟨List.Pairwise.nil, List.Pairwise.nil, (by intro h hm; cases hm), (by intro h hm; cases hm)⟩
 
 /-! ### generic shapes -/
@@ -292,17 +292,30 @@ theorem raaOut_spec (h : OutHtlc) : (if raaKeepOut h then some (raaMapOut h).st 
 def raaGained (n : Node) : Nat := ((n.inb.filter (fun h => h.st == .localRemoved true)).map (·.amt)).sum
 def raaLost (n : Node) : Nat := ((n.outb.filter (fun h => h.st == .awaitingRemovedRemoteRevoke true)).map (·.amt)).sum
 
+/-- what a revoke_and_ack does to the fee state: Outbound / AwaitingRemoteRevokeToAnnounce become the committed feerate -/
+def raaFee (n : Node) : Nat × Option (Nat × FeeState) :=
+  match n.pendingFee with
+  | some (f, .outbound) => (f, none)
+  | some (f, .awaitingRemoteRevokeToAnnounce) => (f, none)
+  | pf => (n.feerate, pf)
+
 theorem onRaa_some {n n' : Node} (h : n.onRaa = some n') :
     n.awaitingRaa = true ∧
     n' = { n with inb := (n.inb.filter raaKeepIn).map raaMapIn, outb := (n.outb.filter raaKeepOut).map raaMapOut,
                   awaitingRaa := false, raaRecv := n.raaRecv + 1,
-                  valueToSelf := n.valueToSelf + raaGained n - raaLost n } := by
+                  valueToSelf := n.valueToSelf + raaGained n - raaLost n,
+                  feerate := (raaFee n).1, pendingFee := (raaFee n).2 } := by
   unfold Node.onRaa at h
   split at h
   · contradiction
   · rename_i haw
     injection h with h
-    exact ⟨by simpa using haw, h.symm⟩
+    refine ⟨by simpa using haw, ?_⟩
+    rw [← h]
+    unfold raaFee
+    cases n.pendingFee with
+    | none => rfl
+    | some p => obtain ⟨f, st⟩ := p; cases st <;> rfl
 
 theorem stIn_onRaa {l : List InHtlc} (hs : SortedIn l) (id : Nat) :
     stIn ((l.filter raaKeepIn).map raaMapIn) id = (stIn l id).bind raaIn :=
@@ -347,6 +360,7 @@ theorem NodeOK.onMsg {n n' : Node} {total : Nat} {m : Msg} {okb : Bool} (ok : No
     obtain ⟨e, _⟩ := onMsg_cs h
     subst e
     exact ok.afterCs
+  | fee f => obtain ⟨_, _, e⟩ := onMsg_fee h; subst e; exact ⟨ok.sIn, ok.sOut, ok.bIn, ok.bOut⟩
   | raa =>
     obtain ⟨e, _⟩ := onMsg_raa h
     exact ok.onRaa e
@@ -359,7 +373,8 @@ theorem NodeOK.built {n : Node} (ok : NodeOK n) (adds fu fa : List Nat) : NodeOK
     have := ok.bOut x hx
     have := mkOuts_lower adds _ y hy
     omega
-  · exact boundIn_mapSt _ (boundIn_foldl_setIn _ _ _ _ (boundIn_foldl_setIn _ _ _ _ ok.bIn))
+  · rw [(built_fields n adds fu fa).2.2.2.1]
+    exact boundIn_mapSt _ (boundIn_foldl_setIn _ _ _ _ (boundIn_foldl_setIn _ _ _ _ ok.bIn))
   · refine boundOut_mapSt _ ?_
     intro h hm
     show h.id < n.nextOutId + adds.length
@@ -390,9 +405,14 @@ theorem unRR_st (h : OutHtlc) : (unRR h).st = unRRst h.st := by
 /-- number of inbound HTLCs still RemoteAnnounced -/
 def raCount (l : List InHtlc) : Nat := l.countP (fun h => h.st == .remoteAnnounced)
 
+/-- a fee update announced by the peer whose commitment_signed has not arrived is forgotten on disconnection -/
+def pauseFee : Option (Nat × FeeState) → Option (Nat × FeeState)
+  | some (_, .remoteAnnounced) => none
+  | pf => pf
+
 theorem pause_unpaused {n : Node} (h : n.paused = false) :
     n.pause = { n with inb := n.inb.filter notRA, nextInId := n.nextInId - raCount n.inb,
-                       outb := n.outb.map unRR, paused := true } := by
+                       outb := n.outb.map unRR, pendingFee := pauseFee n.pendingFee, paused := true } := by
   unfold Node.pause
   rw [h]
   simp only [Bool.false_eq_true, if_false, raCount, List.countP_eq_length_filter]
@@ -422,7 +442,7 @@ structure PausedOK (n : Node) : Prop where
 /-- the RemoteAnnounced HTLCs are the most recent ones: every other id is below `nextInId - raCount` -/
 def RaOK (n : Node) : Prop := ∀ h ∈ n.inb, h.st ≠ .remoteAnnounced → h.id + raCount n.inb < n.nextInId
 
-theorem RaOK.init (v : Nat) : RaOK (Node.init v) := by intro h hm; cases hm
+theorem RaOK.init (v : Nat) (fd : Bool) (f0 : Nat) : RaOK (Node.init v fd f0) := by intro h hm; cases hm
 
 theorem stOut_pause {n : Node} (ok : NodeOK n) (pk : PausedOK n) (id : Nat) :
     stOut n.pause.outb id = (stOut n.outb id).map unRRst := by
@@ -562,6 +582,7 @@ theorem RaOK.onMsg {n n' : Node} {total : Nat} {m : Msg} {okb : Bool} (ok : Node
   | fulfill id => obtain ⟨_, _, e⟩ := onMsg_fulfill h; subst e; exact ra
   | fail id => obtain ⟨_, _, e⟩ := onMsg_fail h; subst e; exact ra
   | cs c => obtain ⟨e, _⟩ := onMsg_cs h; subst e; exact RaOK.afterCs ok
+  | fee f => obtain ⟨_, _, e⟩ := onMsg_fee h; subst e; exact ra
   | raa =>
     obtain ⟨hr, _⟩ := onMsg_raa h
     obtain ⟨_, e⟩ := onRaa_some hr
@@ -640,7 +661,7 @@ theorem RaOK.built {n : Node} (ok : NodeOK n) (ra : RaOK n) (adds fu fa : List N
     simp only [h1] at h2
     simpa using h2
   have hid : x.id = y.id := by rw [← e, ← e']; exact markOne_id fu fa y
-  show x.id + raCount (n.built adds fu fa).inb < n.nextInId
+  rw [(built_fields n adds fu fa).2.2.2.1]
   rw [hc, hid]; exact ra y hy hy'
 
 theorem RaOK.congr {n n' : Node} (ra : RaOK n) (h1 : n'.inb = n.inb) (h3 : n'.nextInId = n.nextInId) : RaOK n' := by
@@ -650,5 +671,107 @@ theorem RaOK.congr {n n' : Node} (ra : RaOK n) (h1 : n'.inb = n.inb) (h3 : n'.ne
 
 theorem PausedOK.of_unpaused {n : Node} (h : n.paused = false) : PausedOK n :=
   ⟨fun h' => (by rw [h] at h'; cases h'), fun h' => (by rw [h] at h'; cases h')⟩
+
+/-! ### the fee fields of a node under each transition -/
+
+/-- `pending_update_fee` after commitment_signed: RemoteAnnounced -> AwaitingRemoteRevokeToAnnounce -/
+def csFee : Option (Nat × FeeState) → Option (Nat × FeeState)
+  | some (f, .remoteAnnounced) => some (f, .awaitingRemoteRevokeToAnnounce)
+  | pf => pf
+
+theorem afterCs_fee (n : Node) : n.afterCs.isFunder = n.isFunder ∧ n.afterCs.feerate = n.feerate ∧
+    n.afterCs.pendingFee = csFee n.pendingFee := by
+  refine ⟨rfl, rfl, ?_⟩
+  show (match n.pendingFee with | some (f, FeeState.remoteAnnounced) => some (f, FeeState.awaitingRemoteRevokeToAnnounce) | pf => pf) = _
+  unfold csFee
+  cases n.pendingFee with
+  | none => rfl
+  | some p => obtain ⟨f, st⟩ := p; cases st <;> rfl
+
+theorem built_fee (n : Node) (adds fu fa : List Nat) : (n.built adds fu fa).isFunder = n.isFunder ∧
+    (n.built adds fu fa).feerate = n.promoted.1 ∧ (n.built adds fu fa).pendingFee = n.promoted.2 := ⟨rfl, rfl, rfl⟩
+
+theorem pause_fee (n : Node) : n.pause.isFunder = n.isFunder ∧ n.pause.feerate = n.feerate ∧
+    n.pause.pendingFee = (if n.paused then n.pendingFee else pauseFee n.pendingFee) := by
+  cases h : n.paused
+  · rw [pause_unpaused h]; exact ⟨rfl, rfl, rfl⟩
+  · rw [pause_paused h]; exact ⟨rfl, rfl, rfl⟩
+
+/-- the fee fields after processing a message -/
+def msgFee (n : Node) : Msg → Nat × Option (Nat × FeeState)
+  | .cs _ => (n.feerate, csFee n.pendingFee)
+  | .raa => raaFee n
+  | .fee f => (n.feerate, some (f, .remoteAnnounced))
+  | _ => (n.feerate, n.pendingFee)
+
+theorem onMsg_fee_fields {n n' : Node} {total : Nat} {m : Msg} {ok : Bool} (h : n.onMsg total m = some (n', ok)) :
+    n'.isFunder = n.isFunder ∧ n'.feerate = (msgFee n m).1 ∧ n'.pendingFee = (msgFee n m).2 ∧
+    (∀ f, m = .fee f → n.isFunder = false) := by
+  cases m with
+  | add id amt => obtain ⟨_, _, e⟩ := onMsg_add h; subst e; exact ⟨rfl, rfl, rfl, fun _ h => by cases h⟩
+  | fulfill id => obtain ⟨_, _, e⟩ := onMsg_fulfill h; subst e; exact ⟨rfl, rfl, rfl, fun _ h => by cases h⟩
+  | fail id => obtain ⟨_, _, e⟩ := onMsg_fail h; subst e; exact ⟨rfl, rfl, rfl, fun _ h => by cases h⟩
+  | cs c =>
+    obtain ⟨e, _⟩ := onMsg_cs h; subst e
+    obtain ⟨h1, h2, h3⟩ := afterCs_fee n
+    exact ⟨h1, h2, h3, fun _ h => by cases h⟩
+  | raa =>
+    obtain ⟨hr, _⟩ := onMsg_raa h
+    obtain ⟨_, e⟩ := onRaa_some hr
+    subst e; exact ⟨rfl, rfl, rfl, fun _ h => by cases h⟩
+  | fee f =>
+    obtain ⟨hf, _, e⟩ := onMsg_fee h
+    subst e; exact ⟨rfl, rfl, rfl, fun _ _ => hf⟩
+
+/-- the pending fee update of the funder is Outbound, that of the other node is not -/
+def Node.feeWF (n : Node) : Bool :=
+  match n.pendingFee with
+  | some (_, st) => (st == .outbound) == n.isFunder
+  | none => true
+
+theorem feeWF_of {n n' : Node} (hf : n'.isFunder = n.isFunder) (hp : n'.pendingFee = n.pendingFee) (w : n.feeWF = true) :
+    n'.feeWF = true := by
+  unfold Node.feeWF at w ⊢; rw [hf, hp]; exact w
+
+theorem feeWF_onMsg {n n' : Node} {total : Nat} {m : Msg} {ok : Bool} (h : n.onMsg total m = some (n', ok))
+    (w : n.feeWF = true) : n'.feeWF = true := by
+  obtain ⟨h1, _, h3, h4⟩ := onMsg_fee_fields h
+  unfold Node.feeWF at w ⊢
+  rw [h1, h3]
+  cases m with
+  | fee f => have := h4 f rfl; simp [msgFee, this]
+  | raa =>
+    simp only [msgFee, raaFee]
+    cases hp : n.pendingFee with
+    | none => rfl
+    | some p => obtain ⟨f, st⟩ := p; rw [hp] at w; cases st <;> first | rfl | exact w
+  | cs c =>
+    simp only [msgFee, csFee]
+    cases hp : n.pendingFee with
+    | none => rfl
+    | some p => obtain ⟨f, st⟩ := p; rw [hp] at w; cases st <;> exact w
+  | add _ _ => exact w
+  | fulfill _ => exact w
+  | fail _ => exact w
+
+theorem feeWF_built {n : Node} (adds fu fa : List Nat) (w : n.feeWF = true) : (n.built adds fu fa).feeWF = true := by
+  unfold Node.feeWF at w ⊢
+  show (match n.promoted.2 with | some (_, st) => (st == .outbound) == n.isFunder | none => true) = true
+  unfold Node.promoted
+  cases hp : n.pendingFee with
+  | none => rfl
+  | some p => obtain ⟨f, st⟩ := p; rw [hp] at w; cases st <;> first | rfl | exact w
+
+theorem feeWF_pause {n : Node} (w : n.feeWF = true) : n.pause.feeWF = true := by
+  obtain ⟨h1, _, h3⟩ := pause_fee n
+  unfold Node.feeWF at w ⊢
+  rw [h1, h3]
+  cases n.paused
+  · simp only [Bool.false_eq_true, if_false]
+    unfold pauseFee
+    cases hp : n.pendingFee with
+    | none => rfl
+    | some p => obtain ⟨f, st⟩ := p; rw [hp] at w; cases st <;> first | rfl | exact w
+  · exact w
 
 end Ldk.Chan
